@@ -216,7 +216,11 @@ class SpawnProcess(multiprocessing.context.SpawnProcess):
                 msg = os.strerror(exitcode)
                 if exitcode == 9:
                     msg += ': possibly out of memory'
-                raise OSError(exitcode, msg) from exc
+                # Report the death through the future (hence through `join`, `result`,
+                # `exception`, `wait`, `as_completed`) rather than raising in this
+                # helper thread, which would leave the future unresolved forever.
+                error = OSError(exitcode, msg)
+                error.__cause__ = exc
 
         self._logger_queue_.put(None)
         self._result_and_error_.close()
